@@ -29,7 +29,7 @@ LEVEL_TEXT = ("Real end-to-end runs over generated frame layouts (spacing 1-5 st
 LEVEL_NOTE = "Tolerance 2e-5 relative (float32 fields accumulate u += dU over up to 5 steps). Trusts the harness's layout oracle and netCDF4."
 RULE = ("case = one layout (frame positions in steps, file partition, start, stop, direction, scalars, packing). Non-trivial: the run passes at least one frame step after the "
         "start (a hand-over happens); distinct by (positions, partition, start, stop, direction).")
-MANDATORY = ["warm_start_probe_steps", "warm_start_reaches_last_frame", "files_with_different_time_references", "frame_passed_while_state_empty", "forward", "reversed", "spacing_equals_dt", "irregular_spacing", "one_frame_per_file", "file_entered_in_middle", "start_on_frame", "start_between_frames",
+MANDATORY = ["files_rewritten_with_another_layout_after_a_run", "same_single_fraction_requested_every_step", "warm_start_probe_steps", "warm_start_reaches_last_frame", "files_with_different_time_references", "frame_passed_while_state_empty", "forward", "reversed", "spacing_equals_dt", "irregular_spacing", "one_frame_per_file", "file_entered_in_middle", "start_on_frame", "start_between_frames",
              "scalar_fields", "packed", "handover_steps_observed", "probe_steps", "reads_checked", "first_read_straddles_files", "time_units_hours_or_days", "packed_per_file_parameters"]
 ASSUMPTIONS = ["frames on the model time grid, strictly increasing, covering [start, stop] (as the property quantifies)"]
 TIMEOUT = {"quick": 900, "thorough": 3000}
@@ -170,7 +170,8 @@ def run_case(case: dict[str, Any], wd: Path) -> dict[str, Any]:
     run = dict(start=start, stop=stop, dt=dt, reversed=rev, advection="EF", extra_forcing=list(scal_vals),
                release=dict(columns=["release_time", "X", "Y", "Z"], rows=[[trel, 4.3, 4.6, 5.0], [trel, 5.5, 3.5, 20.0]], header=True),
                state=dict(instance_variables=st_i, default_values={k: 0.0 for k in st_i}),
-               ibm=dict(module=PROBE, fractions=FRACS),
+               # every fourth case asks for one and the same fraction in every step and nothing else (as RK2 does with 0.5)
+               ibm=dict(module=PROBE, fractions=[[0.5], [0.25], [1.0]][case["salt"] % 3] if case["salt"] % 4 == 1 else FRACS),
                output=dict(period=dt))
     # --- independent tables from the spec
     file_of_frame = []
@@ -193,6 +194,19 @@ def run_case(case: dict[str, Any], wd: Path) -> dict[str, Any]:
     warm_tail = bool(not rev and E == P[-1] and abs(E - S) >= 3 and first_rel == 0 and scal_vals and not case["packed"])
     if warm_tail:
         run["output"]["numrec"] = 2  # split output: the first file is the starting point of a warm-started continuation (below)
+    if case["salt"] % 5 == 3 and nfr >= 3:
+        # history: the same file names held another frame layout a moment ago (all frames but the first one step later) and were used by a
+        # run in this process; then the files are rewritten and the run proper starts
+        import copy  # noqa: PLC0415
+
+        wpre = copy.deepcopy(w)
+        wpre["frames"] = [P[0] * dt] + [(p_ + 1) * dt for p_ in P[1:]]
+        wpre.pop("time_units_per_file", None)
+        runpre = dict(run, ibm={}, output=dict(period=dt, filename="pre.nc"))
+        run_scenario(dict(world=wpre, run=runpre), wd, conf_name="pre.yaml")
+        sit_pre = 1
+    else:
+        sit_pre = 0
     rec.reset()
     with Hooks() as hk:
         hk.wrap(Forcing, "_read_velocity", None, after_rv)
@@ -225,6 +239,8 @@ def run_case(case: dict[str, Any], wd: Path) -> dict[str, Any]:
     sit["packed"] = int(case["packed"])
     sit["packed_per_file_parameters"] = int("pack_per_file" in w)
     sit["time_units_hours_or_days"] = int("time_units" in w)
+    sit["files_rewritten_with_another_layout_after_a_run"] = sit_pre
+    sit["same_single_fraction_requested_every_step"] = int(case["salt"] % 4 == 1)
     sit["files_with_different_time_references"] = int("time_units_per_file" in w)
     sit["frame_passed_while_state_empty"] = int(any(0 < s_ <= first_rel for s_ in step_of_frame))
     # first frame read (prestep) in the middle of a file?
